@@ -32,6 +32,7 @@ EXPLANATION = (
     "regenerate_previous_results reaches from_json, and every comparison of a stored setting with the current option "
     "has a mismatch arm that raises, returns None, or keeps the stored value while warning. R11.4 a results object "
     "regenerated under a current setting records that same current setting (the value that gated the decisions)."
+    ' R11.6: sibling agreement - HmmerResults.refilter keeps a hit under the same (exclusive) comparisons as build_hits.'
 )
 UNDECIDED = [
     "byte-identical regenerated JSON for every results object",
@@ -361,6 +362,47 @@ def r11_5(ctx: Ctx) -> None:
                form=INPUT_ONLY.get(lst, "emptied or filtered" if ok else "not touched"))
 
 
+def r11_6(ctx: Ctx) -> None:
+    """ sibling agreement of the run-time and the reuse-time filter of hmmer hits: results saved under lenient thresholds
+        and refiltered on reuse must be the results a fresh run with the stricter thresholds gives, so both filters keep
+        a hit under the same comparisons with the same strictness """
+    from ..flow import effective_compare
+    hm = "antismash/common/hmmer.py"
+    build = ctx.fn(hm, "build_hits")
+    refilter = ctx.fn(hm, "HmmerResults.refilter")
+
+    def kept(func: ast.AST, negate: bool) -> Dict[str, str]:
+        """ quantity -> operator under which a hit is kept """
+        out: Dict[str, str] = {}
+        flip = {"<": ">=", "<=": ">", ">": "<=", ">=": "<"}
+        for node in ast.walk(func):
+            if not isinstance(node, ast.Compare) or len(node.ops) != 1:
+                continue
+            cmp_ = effective_compare(node, True)
+            if cmp_ is None or cmp_[1] not in flip:
+                continue
+            left, op, right = cmp_
+            for quantity, names in (("score", ("score", "bitscore")), ("evalue", ("evalue",))):
+                if isinstance(left, ast.Attribute) and left.attr in names and isinstance(right, ast.Name) \
+                        and ("min_score" in right.id or "max_evalue" in right.id):
+                    out[quantity] = flip[op] if negate else op
+        return out
+    fresh = kept(build, negate=True)       # build_hits *skips* under the comparison
+    reuse = {}
+    for node in ast.walk(refilter):
+        if isinstance(node, ast.ListComp):
+            reuse = kept(node, negate=False)   # refilter *keeps* under the comparison
+    if set(fresh) != {"score", "evalue"} or set(reuse) != {"score", "evalue"}:
+        raise AnalysisError(f"R11.6: threshold comparisons not found (run-time {fresh}, reuse {reuse})")
+    for quantity in ("score", "evalue"):
+        ctx.ob("R11.6", hm, refilter, "HmmerResults.refilter", f"{quantity} threshold as strict as at run time", fresh[quantity] == reuse[quantity],
+               "the reuse-time filter keeps a hit under the same comparison as the run-time filter (both thresholds exclusive), "
+               "so that refiltered results equal a fresh run with the stricter settings",
+               detail="" if fresh[quantity] == reuse[quantity] else f"run time keeps `{quantity} {fresh[quantity]} threshold`, reuse keeps "
+               f"`{quantity} {reuse[quantity]} threshold`: a hit exactly on the new threshold survives reuse but not a fresh run",
+               form=f"run time {fresh[quantity]}, reuse {reuse[quantity]}")
+
+
 def run(ctx: Ctx) -> None:
     ctx.rule("R11.5", "strip_antismash_annotations covers every feature list modules add to", floor=8)
     r11_5(ctx)
@@ -372,3 +414,5 @@ def run(ctx: Ctx) -> None:
     r11_2(ctx)
     r11_3(ctx)
     r11_4(ctx)
+    ctx.rule("R11.6", "the reuse-time hit filter is as strict as the run-time one", floor=2)
+    r11_6(ctx)
